@@ -1169,6 +1169,9 @@ pub fn run(line: &str) -> String {
             "3" => K::FailsIfPausedOrReduceState,
             _ => panic!("kind"),
         };
+        if v.len() > 2 {
+            b.flags = v[2].parse().unwrap();      // the gate must not depend on the bank's flag word
+        }
         return match marginfi::utils::validate_bank_state(&b, k) {
             Ok(()) => "OK".to_string(),
             Err(e) => crate::util::err_tok(&e),
